@@ -224,7 +224,9 @@ struct Sub {
 
 const OPT4: &[(Option<&str>, Option<&str>)] = &[(None, None), (Some("p"), Some("S")), (Some("p"), None), (None, Some("S"))];
 const PREFIXES: &[&str] = &["", "é", "a b", "-", "1x", "p--q"];
-const CLASS_SPELLINGS: &[&str] = &["a\\.b", "\\31 x", "é😀", "x\\:y", "w-1\\/2", "-c", "C"];
+// (the last two are written with an escape at their end: the blank that ends the escape is part of the name, a blank behind it is a
+// blank of its own - `.\31  .b` is `.1 .b`, `.\31 .b` is `.1.b`)
+const CLASS_SPELLINGS: &[&str] = &["a\\.b", "\\31 x", "é😀", "x\\:y", "w-1\\/2", "-c", "C", "\\31 ", "a\\1 "];
 
 fn build(thorough: bool) -> Vec<Sub> {
     let mut subs = vec![];
@@ -291,10 +293,12 @@ fn build(thorough: bool) -> Vec<Sub> {
     // 3b. spellings of the class name itself (escapes, non-ASCII, a digit first): the name is prefixed, its spelling kept
     subs.push(Sub {
         name: "class-spellings x selectors:depth<=1".into(),
-        size: n1 * CLASS_SPELLINGS.len() as u64 * 2,
+        size: n1 * CLASS_SPELLINGS.len() as u64 * 4,
         gen: Box::new(move |i| {
             let sign = if i % 2 == 0 { None } else { Some("S") };
-            let k = i / 2;
+            // (with and without a prefix: without one the name is written back as the printer spells it)
+            let prefix = if (i / 2) % 2 == 0 { Some("p") } else { None };
+            let k = i / 4;
             let sp = CLASS_SPELLINGS[(k % CLASS_SPELLINGS.len() as u64) as usize];
             let mut sh = selector_sheet(1, k / CLASS_SPELLINGS.len() as u64, &[]);
             for p in sh.pieces.iter_mut() {
@@ -302,7 +306,7 @@ fn build(thorough: bool) -> Vec<Sub> {
                     p.text = sp.to_string();
                 }
             }
-            (sh, opts_of(Some("p"), sign))
+            (sh, opts_of(prefix, sign))
         }),
     });
     // 4. value-token adjacency: pairs (and triples when thorough)
